@@ -270,7 +270,8 @@ Fixpoint stop_seq (fuel : nat) (dw : nat) (s : sys) (a : nat) : sys :=
 Definition spawn_seq (dw : nat) (s : sys) (p c : nat) : sys :=
   step (step (step s (LAddNode p c)) (LWatch dw c)) (LSetRunning c true).
 
-(* Restart of a (leaf) actor: Shutdown, then init, addOrAttachNode(parent), addWatcher(pid, deathWatch) *)
+(* Restart of a (leaf) actor: Shutdown when it is running (a suspended actor is not shut down: its node, its
+   watchers and its own watches stay), then init, addOrAttachNode(parent), addWatcher(pid, deathWatch) *)
 Definition restart_seq (fuel : nat) (dw : nat) (s : sys) (p a : nat) : sys :=
   let s1 := stop_seq fuel dw s a in
   step (step (step (step s1 (LRespawn a)) (LAttach p a)) (LWatch dw a)) (LSetRunning a true).
@@ -285,7 +286,8 @@ Inductive sop : Type :=
 | OWatch (w a : nat)
 | OUnWatch (w a : nat)
 | OStop (a : nat)            (* Shutdown, PoisonPill *)
-| ORestart (a : nat)         (* Restart of a running top-level actor without children *)
+| ORestart (a : nat)         (* PID.Restart of an actor without children (running: shut down first; suspended: not) *)
+| OCrash (a : nat)           (* the actor panics: suspended, then its parent applies the RestartDirective *)
 | OSpawnChild (p c : nat)
 | OSuspend (a : nat)         (* pid.suspend: the actor stays registered but IsRunning() is false *)
 | OReinstate (a : nat).
@@ -293,12 +295,24 @@ Inductive sop : Type :=
 Definition guardian : nat := 0.
 Definition deathwatch : nat := 1.
 
+(* PID.Restart reads the parent from the tree before anything else (the guardian for top-level actors) *)
+Definition parent_of (s : sys) (a : nat) : nat :=
+  match lookup (tr s) a with
+  | Some nd => match parent nd with Some p => p | None => guardian end
+  | None => guardian
+  end.
+
 Definition apply_sop (s : sys) (o : sop) : sys :=
   match o with
   | OWatch w a => step s (LWatch w a)
   | OUnWatch w a => step s (LUnWatch w a)
   | OStop a => stop_seq 8 deathwatch s a
-  | ORestart a => restart_seq 8 deathwatch s guardian a
+  | ORestart a => restart_seq 8 deathwatch s (parent_of s a) a
+  | OCrash a =>
+      (* notifyParent: suspend; parent.restartChild: pid.UnWatch(child); child.Restart() *)
+      let p := parent_of s a in
+      let s1 := step (step s (LSetRunning a false)) (LUnWatch p a) in
+      restart_seq 8 deathwatch s1 p a
   | OSpawnChild p c => if is_running s p then spawn_seq deathwatch s p c else s
   | OSuspend a => step s (LSetRunning a false)
   | OReinstate a => step s (LSetRunning a true)
